@@ -153,8 +153,8 @@ Proof. split; [exact demo_replay_pre|exact demo_replay_result]. Qed.
 Print Assumptions C11_replaying_events_rebuilds_the_world.
 
 (** ** ... with batch operations in the history (Batch.Add / Remove / Exchange,
-    Relations.ExchangeBatch, Batch.SetRelation, Batch.RemoveEntities with unregistered filters,
-    Builder.NewBatch of id builders):
+    Relations.ExchangeBatch, Batch.SetRelation, Batch.RemoveEntities with unregistered OR registered
+    filters, Builder.NewBatch of id builders):
     the events of a batch touch pairwise distinct entities, each carrying the difference of
     that entity's component sets, so the shadow rebuilt from the events alone still holds
     exactly the alive entities with the component sets the world reports. *)
@@ -181,6 +181,13 @@ Example C11_replay_with_batches_nonvacuous :
     [(mkE 6 0, 5%N); (mkE 5 0, 5%N); (mkE 2 1, 4%N); (mkE 4 0, 3%N); (mkE 3 0, 3%N); (mkE 1 0, 0%N)] /\
   length (events_of w demo_replay_b_ops) = 15.
 Proof. split; [exact demo_replay_b_pre|exact demo_replay_b_result]. Qed.
+Example C11_replay_with_registered_filter_nonvacuous :
+  let w := run (world_init 2 2 64) demo_replay_c_setup in
+  let A := snd (arun (world_init 2 2 64) a_init demo_replay_c_setup) in
+  (w_listener w = Some lall /\ pre_runEB w A demo_replay_c_ops) /\
+  sh_replay [] (events_of w demo_replay_c_ops) = [(mkE 2 0, 4%N); (mkE 1 0, 0%N); (mkE 3 0, 4%N)] /\
+  length (events_of w demo_replay_c_ops) = 7.
+Proof. split; [exact demo_replay_c_pre|exact demo_replay_c_result]. Qed.
 Print Assumptions C11_replaying_events_rebuilds_the_world_with_batches.
 
 (** ** ... components AND relation targets.  The relation target is not part of an event (only
